@@ -296,6 +296,20 @@ def take (frags : List Frag) (stable : Bool) (offs : List Nat) : Res (List Row) 
     | none => .panic
     | some addrs => takeAddrs frags stable addrs
 
+/-- `take_scan` (lance/src/dataset/take.rs): one `Dataset::take` per requested range of row offsets, batches in
+    range order; the first failing range ends the stream -/
+def takeScan (frags : List Frag) (stable : Bool) : List (Nat × Nat) → Res (List Row)
+  | [] => .ok []
+  | r :: t =>
+    match take frags stable (List.range' r.1 (r.2 - r.1)) with
+    | .ok a =>
+      match takeScan frags stable t with
+      | .ok b => .ok (a ++ b)
+      | .err => .err
+      | .panic => .panic
+    | .err => .err
+    | .panic => .panic
+
 /-! ## row id -> address (RowIdIndex) and take_rows -/
 
 /-- the (row id, address) pairs `decompose_sequence` yields: live physical rows of every fragment -/
